@@ -2203,6 +2203,87 @@ def check_dispatch(rep):
 
 
 # ---------------------------------------------------------------------------
+# sub-check: one-shot responders whose function raises
+# ---------------------------------------------------------------------------
+
+def _oneshot_raising_child(cases):
+    """-> list of (case, invocations, still_enabled, still_registered, errors)."""
+    import sc3
+    sc3.init('nrt')
+    from sc3.base.netaddr import NetAddr
+    from sc3.base.responders import OscFunc
+    sender = NetAddr('127.0.0.1', 57110)
+    out = []
+    for kind, raising, nmsgs, with_other in cases:
+        calls, other_calls, errors = [], [], []
+
+        def func(msg, time, addr, recv_port, _c=calls, _r=raising):
+            _c.append(list(msg))
+            if _r:
+                raise ValueError('responder function failed')
+        path = '/c18os/%s/%d' % (kind, len(out))
+        ctor = OscFunc.matching if kind == 'match' else OscFunc
+        disp = OscFunc._default_matching_dispatcher if kind == 'match' else OscFunc._default_dispatcher
+        resp = ctor(func, path)
+        resp.one_shot()
+        other = None
+        if with_other:
+            other = ctor(lambda msg, *a, _o=other_calls: _o.append(list(msg)), path)
+        for i in range(nmsgs):
+            try:
+                disp([path, i], 0.0, sender, 57120)
+            except Exception as e:
+                errors.append(type(e).__name__)
+        out.append(([kind, raising, nmsgs, with_other], [list(c) for c in calls], bool(resp.enabled),
+                    resp in OscFunc._all_func_proxies, errors, len(other_calls)))
+        for r in (resp, other):
+            if r is not None:
+                try:
+                    r.free()
+                except Exception:
+                    pass
+    return out
+
+
+def check_oneshot_raising(rep):
+    cases = [[k, r, n, o] for k in ('exact', 'match') for r in (False, True) for n in (1, 2, 3)
+             for o in (False, True)]
+    res = _in_child(_oneshot_raising_child, cases)
+    n = 0
+    for case, calls, enabled, registered, errors, nother in res:
+        n += 1
+        kind, raising, nmsgs, with_other = case
+        if len(calls) != 1 or calls[0][1] != 0:
+            rep.violation(
+                obligation='C18.dispatch',
+                what='one-shot responder on the %s dispatcher whose function %s was invoked %d times by %d '
+                     'messages with its address (errors seen by the caller: %r)' % (
+                         kind, 'raises' if raising else 'returns', len(calls), nmsgs, errors),
+                input={'case': case}, observed=calls, expected='invoked by the first message only',
+                key='C18.dispatch:spurious:one-shot-already-fired-or-freed' + (':raising' if raising else ''),
+                replay={'func': 'oneshot', 'args': case})
+        elif enabled or registered:
+            rep.violation(
+                obligation='C18.dispatch',
+                what='one-shot responder on the %s dispatcher whose function %s is still %s after it fired' % (
+                    kind, 'raises' if raising else 'returns',
+                    'enabled' if enabled else 'registered'),
+                input={'case': case}, observed={'enabled': enabled, 'registered': registered},
+                expected='freed', key='C18.dispatch:one-shot-still-live' + (':raising' if raising else ''),
+                replay={'func': 'oneshot', 'args': case})
+    rep.bounded(
+        name='oneshot-raising', function='AbstractResponderFunc.one_shot x OscMessageDispatcher/'
+                                         'OscMessagePatternDispatcher.__call__',
+        bound='%d scenarios: one-shot responder on the exact / matching dispatcher, function returning or '
+              'raising, 1-3 messages with its address, with and without a second responder on the same '
+              'address (messages handed to the dispatcher as the receive path does)' % len(cases),
+        evaluations=n, distinct_nontrivial=sum(1 for c in cases if c[1]),
+        rule='the responder is invoked by the first message only and is disabled and unregistered afterwards, '
+             'whether or not its function raised (the error itself may propagate to the caller); '
+             'non-trivial = raising function', samples=cases[:2] + cases[-2:], exhaustive=True)
+
+
+# ---------------------------------------------------------------------------
 # main / replay
 # ---------------------------------------------------------------------------
 
@@ -2213,6 +2294,8 @@ def main(rep):
         check_registries(rep)
     if wants(rep, 'dispatch'):
         check_dispatch(rep)
+    if wants(rep, 'oneshot-raising'):
+        check_oneshot_raising(rep)
     if wants(rep, 'fuzz'):
         check_fuzz(rep)
 
@@ -2220,6 +2303,9 @@ def main(rep):
 def replay(case, rep):
     r = case.get('replay') or {}
     func, args = r.get('func'), r.get('args')
+    if func == 'oneshot':
+        check_oneshot_raising(rep)
+        return not rep.violations
     if func == 'match':
         p, a = args
         res = _run_single('match1', {}, [p, a], 60)
